@@ -82,7 +82,7 @@ impl Property for C01 {
         "C01"
     }
     fn rule(&self) -> &'static str {
-        "case = abstract document / fragment / unattached element in the XML-representable, well-scoped domain (full XML Char alphabet incl. TAB LF CR < & > quotes ]]> non-BMP; shadowing, several prefixes per namespace, xmlns=\"\" undeclaration), built by one of three routes (creation API, creation in a generated construction order with moves, parse of a generated rendering); to_string of the root - or of a non-root element - must succeed, be accepted by parse / parse_fragment, read back equal to the source abstract tree (kinds, order, expanded names, attribute sets with exact values, character data, comments, PIs, per-element declaration maps; for a sub-element the top declarations must equal the model's in-scope bindings) and be deep_equal to the original. Non-trivial = >= 3 nodes and at least one escaping-relevant character or namespace declaration. Distinct by hash of the abstract tree and route."
+        "case = abstract document / fragment / unattached element in the XML-representable, well-scoped domain (full XML Char alphabet incl. TAB LF CR < & > quotes ]]> non-BMP; shadowing, several prefixes per namespace, xmlns=\"\" undeclaration), built by one of three routes (creation API, creation in a generated construction order with moves, parse of a generated rendering); to_string of the root - or of a non-root element - must succeed, be accepted by parse / parse_fragment, read back equal to the source abstract tree (kinds, order, expanded names, attribute sets with exact values, character data, comments, PIs, per-element declaration maps; for a sub-element the top declarations must equal the model's in-scope bindings) and be deep_equal to the original. Plan api-free: trees only the API can build (any subset of declarations: no-namespace elements below a default namespace without xmlns=\"\" of their own, nested; names with missing bindings) - if to_string succeeds the output must be accepted, denote the same names and content for xot's parser and for the independent reader, and be deep_equal. Non-trivial = >= 3 nodes and at least one escaping-relevant character or namespace declaration (api-free: a no-namespace element below a default namespace, serialised). Distinct by hash of the abstract tree and route."
     }
     fn plans(&self, tier: Tier) -> Vec<Plan> {
         let mk = |name: &'static str, cases, variant, max_nodes| Plan {
@@ -91,12 +91,15 @@ impl Property for C01 {
             knobs: Knobs { max_nodes, variant, ..Default::default() },
         };
         match tier {
-            Tier::Quick => vec![mk("whole", 40_000, 0, 30), mk("subtree", 20_000, 1, 30)],
-            Tier::Thorough => vec![mk("whole", 1_200_000, 0, 30), mk("whole-big", 80_000, 0, 120), mk("subtree", 600_000, 1, 30)],
+            Tier::Quick => vec![mk("whole", 40_000, 0, 30), mk("subtree", 20_000, 1, 30), mk("api-free", 60_000, 2, 24)],
+            Tier::Thorough => vec![mk("whole", 1_200_000, 0, 30), mk("whole-big", 80_000, 0, 120), mk("subtree", 600_000, 1, 30), mk("api-free", 800_000, 2, 24)],
         }
     }
 
     fn check(&self, src: &mut Src, ctx: &mut Ctx) -> Verdict {
+        if ctx.knobs.variant == 2 {
+            return self.api_free(src, ctx);
+        }
         let mut o = TreeOpts::xml(ctx.knobs.max_nodes.max(3));
         o.odd_uris = true;
         let doc = match src.weighted(&[5, 3, 2]) {
@@ -195,6 +198,154 @@ impl Property for C01 {
                 if !xot.deep_equal(node, re_el) {
                     return Err(format!("deep_equal(sub-element, reparsed) is false (output {:?})", s));
                 }
+            }
+            Ok(())
+        })();
+        match r {
+            Ok(()) => Verdict::Pass,
+            Err(e) => Verdict::Fail(e),
+        }
+    }
+}
+
+impl C01 {
+    /// trees only the API can build: any subset of declarations (Scoping::Free). Whatever
+    /// to_string accepts must come back with the same names and content.
+    fn api_free(&self, src: &mut Src, ctx: &mut Ctx) -> Verdict {
+        let mut o = TreeOpts::xml(ctx.knobs.max_nodes.max(3));
+        o.alpha = gen::Alpha::Tiny;
+        o.attr_alpha = gen::Alpha::Tiny;
+        // mostly: a well-scoped tree from which the xmlns=\"\" declarations that protect
+        // no-namespace elements are stripped again (the layout a parser never produces);
+        // sometimes: any subset of declarations
+        let strip = src.ratio(3, 4);
+        o.scoping = if strip { gen::Scoping::Well } else { gen::Scoping::Free };
+        o.redundant_decls = src.bool();
+        o.max_depth = 7;
+        let mut doc = match src.weighted(&[4, 2, 3]) {
+            0 => gen::gen_document(src, &o),
+            1 => gen::gen_fragment(src, &o),
+            _ => gen::gen_element_tree(src, &o),
+        };
+        if strip {
+            fn strip_undeclarations(n: &mut ANode, src: &mut Src) {
+                if let ANode::Element(e) = n {
+                    if e.name.ns.is_empty() && src.ratio(3, 4) {
+                        e.decls.retain(|(p, u)| !(p.is_empty() && u.is_empty()));
+                    }
+                    // more default namespaces: a namespaced element may declare its own
+                    // namespace as the default as well
+                    if !e.name.ns.is_empty() && !e.decls.iter().any(|(p, _)| p.is_empty()) && src.ratio(1, 3) {
+                        e.decls.push((String::new(), e.name.ns.clone()));
+                    }
+                }
+                if let Some(ch) = n.children_mut() {
+                    for c in ch.iter_mut() {
+                        strip_undeclarations(c, src);
+                    }
+                }
+            }
+            strip_undeclarations(&mut doc, src);
+        }
+        let mut xot = Xot::new();
+        let mut hs = vec![];
+        let root = match bridge::build(&mut xot, &doc, &mut hs) {
+            Ok(r) => r,
+            Err(e) => return Verdict::Fail(format!("harness: {}", e)),
+        };
+        ctx.fingerprint(&doc);
+        ctx.rendering(|| doc.show());
+        fn risky(n: &ANode, default: bool) -> bool {
+            match n {
+                ANode::Element(e) => {
+                    let mut d = default;
+                    for (p, u) in &e.decls {
+                        if p.is_empty() {
+                            d = !u.is_empty();
+                        }
+                    }
+                    (e.name.ns.is_empty() && d) || e.children.iter().any(|c| risky(c, d))
+                }
+                _ => n.children().iter().any(|c| risky(c, default)),
+            }
+        }
+        // "whose namespaced names have a usable prefix in scope": Some(true) = every namespaced
+        // element name has a prefix (or the default namespace) bound to its namespace and every
+        // namespaced attribute a non-empty one, where a no-namespace element below a default
+        // namespace ends that default for its subtree (the serializer has to write xmlns=\"\"
+        // there); None = a no-namespace element declares a default namespace itself (no text
+        // can express that tree)
+        fn usable(n: &ANode, sc: &Scope) -> Option<bool> {
+            match n {
+                ANode::Element(e) => {
+                    let mut inner = scope::push(sc, &e.decls);
+                    if e.decls.iter().any(|(p, u)| !p.is_empty() && u.is_empty()) {
+                        return None;
+                    }
+                    if e.name.ns.is_empty() {
+                        if e.decls.iter().any(|(p, u)| p.is_empty() && !u.is_empty()) {
+                            return None;
+                        }
+                        inner.remove("");
+                    } else if scope::prefixes_for(&inner, &e.name.ns).is_empty() {
+                        return Some(false);
+                    }
+                    for (q, _) in &e.attrs {
+                        if !q.ns.is_empty() && !scope::prefixes_for(&inner, &q.ns).iter().any(|p| !p.is_empty()) {
+                            return Some(false);
+                        }
+                    }
+                    for c in &e.children {
+                        match usable(c, &inner) {
+                            Some(true) => {}
+                            other => return other,
+                        }
+                    }
+                    Some(true)
+                }
+                _ => {
+                    for c in n.children() {
+                        match usable(c, sc) {
+                            Some(true) => {}
+                            other => return other,
+                        }
+                    }
+                    Some(true)
+                }
+            }
+        }
+        let must = usable(&doc, &scope::base_scope());
+        let r: Result<(), String> = (|| {
+            let s = match guarded(|| xot.to_string(root)).map_err(|p| format!("to_string panicked: {}", p))? {
+                Ok(s) => s,
+                Err(e) => {
+                    if must == Some(true) {
+                        return Err(format!("to_string failed ({}) although every namespaced name has a usable prefix in scope", e));
+                    }
+                    ctx.label("refused");
+                    return Ok(());
+                }
+            };
+            ctx.nontrivial = doc.count() >= 3 && risky(&doc, false);
+            let as_doc = !matches!(doc, ANode::Document(_)) || is_well_formed_document(&doc);
+            let re = guarded(|| if as_doc { xot.parse(&s) } else { xot.parse_fragment(&s) })
+                .map_err(|p| format!("parsing the output panicked: {}", p))?
+                .map_err(|e| format!("the serialisation {:?} is not accepted by the parser: {}", s, e))?;
+            let want = match &doc {
+                ANode::Document(_) => doc.clone(),
+                other => ANode::Document(vec![other.clone()]),
+            };
+            let got = bridge::read(&xot, re)?;
+            same_tree(&got, &want, Cmp::no_decls()).map_err(|e| format!("output {:?} reparses differently: {}", s, e))?;
+            let ind = if as_doc { crate::indep::xmltok::read_xml_document(&s) } else { crate::indep::xmltok::read_document(&s) }
+                .map_err(|e| format!("output {:?} is not well-formed for an independent reader: {}", s, e))?;
+            same_tree(&ind, &want, Cmp::no_decls()).map_err(|e| format!("output {:?} read by an independent reader differs: {}", s, e))?;
+            let re_cmp = match &doc {
+                ANode::Document(_) => re,
+                _ => xot.document_element(re).map_err(|e| e.to_string())?,
+            };
+            if !xot.deep_equal(root, re_cmp) {
+                return Err(format!("deep_equal(original, reparsed) is false although the read-backs agree (output {:?})", s));
             }
             Ok(())
         })();
